@@ -176,6 +176,12 @@ def run_harness(exe, area, seed, cases, tier, extra):
 
 
 def run_model(trace_text):
+    # the executable is replaced when a concurrent job relinks it: wait for it / link it again
+    for attempt in range(4):
+        if os.path.exists(MODEL_EXE):
+            break
+        time.sleep(5)
+        run(["lake", "build", "tmcg_model"], cwd=LEAN)
     r = subprocess.run([MODEL_EXE], input=trace_text.encode(), capture_output=True)
     return r.returncode, r.stdout.decode(errors="replace"), r.stderr.decode(errors="replace")
 
